@@ -71,7 +71,10 @@ AtomsSql == { Cmp("eq", A("x", "a"), L(0)), Cmp("lt", A("x", "b"), L(1)), Cmp("g
 \* partially ordered values: the negation of  <  is not  >=
 AtomsPoset == { <<"scmp", "lt", A("x", "s"), A("y", "s")>>, <<"scmp", "ge", A("x", "s"), A("y", "s")>>,
                 <<"scmp", "lt", A("y", "s"), A("x", "s")>>, Cmp("eq", A("x", "a"), L(0)), Cmp("eq", A("y", "a"), L(0)) }
-Atoms == CASE Family = "logic" -> AtomsLogic [] Family = "sql" -> AtomsSql [] Family = "poset" -> AtomsPoset [] Family = "logic6" -> AtomsLogic6 [] Family = "quant" -> AtomsQuant [] OTHER -> AtomsAccess
+\* an Optional attribute that holds None for one object (99 = None): only == and != are defined on it
+AtomsOptional == { Cmp("eq", A("x", "w"), L(1)), Cmp("ne", A("x", "w"), L(1)), Cmp("eq", A("x", "w"), A("y", "w")), Cmp("ne", A("y", "w"), A("x", "w")),
+                   Cmp("eq", A("x", "a"), L(0)), <<"in", <<"var", "x">>, A("y", "items")>> }
+Atoms == CASE Family = "optional" -> AtomsOptional [] Family = "logic" -> AtomsLogic [] Family = "sql" -> AtomsSql [] Family = "poset" -> AtomsPoset [] Family = "logic6" -> AtomsLogic6 [] Family = "quant" -> AtomsQuant [] OTHER -> AtomsAccess
 RECURSIVE ExprD(_)
 ExprD(d) == IF d = 0 THEN Atoms
             ELSE LET S == ExprD(d - 1) IN
